@@ -74,7 +74,13 @@ func main() {
 	}
 
 	repo := envOr("VP_REPO", "/repo")
-	verif := envOr("VP_VERIF", "/verif")
+	// the verification tree is where the check was started (./check cds to its own directory),
+	// so a snapshot of /verif runs entirely from the snapshot
+	cwd, _ := os.Getwd()
+	if _, err := os.Stat(filepath.Join(cwd, "harness")); err != nil {
+		cwd = "/verif"
+	}
+	verif := envOr("VP_VERIF", cwd)
 	if err := loadFindings(verif); err != nil {
 		fmt.Println("INCONCLUSIVE cannot read known_findings.json:", err)
 		os.Exit(2)
